@@ -1,5 +1,7 @@
 package check
 
+import "bngvc/govc"
+
 func init() {
 	register(&PropDef{
 		ID:    "C09",
@@ -27,6 +29,15 @@ func init() {
 			"ztp.parseVendorOptions", "ztp.extractNexusURL", "dhcp.parseOption82",
 		},
 		BaselineClaims: true,
+		// the sweep claims safety obligations only; ensures/frame/invariant obligations of functional
+		// contracts on the same functions belong to the properties that own those contracts
+		Select: func(o *govc.Oblig) bool {
+			switch o.Kind {
+			case "nopanic", "variant", "requires", "canary":
+				return true
+			}
+			return false
+		},
 		// receive loops run until shutdown by design; the property bounds the work per packet, not the listener
 		ServiceLoops: []string{"radius.CoAServer.receiveLoop#1", "pppoe.Server.receiveLoop#1", "ha.HASyncer.readSSEStream#1"},
 		Undecided: []string{
